@@ -111,7 +111,7 @@ func (p *c08) Rule() string {
 
 var c08Entries = []string{"load-write-render", "withfs-load-write-render", "write-load-render", "write-renderfile", "write-renderstring", "vue-render", "vue-fragment"}
 var c08Shapes = []string{"map", "struct-tag", "struct-name", "ptr-tag", "ptr-name", "struct-untagged", "struct-omitempty", "ptr-omitempty"}
-var c08Types = []string{"s", "i", "b", "l", "m"}
+var c08Types = []string{"s", "i", "b", "l", "m", "n"} // n: strings, but the front-matter holds the key with a YAML null ("key: ~")
 var c08Kinds = []string{"FF", "FA", "AF", "AA"} // kind of the earlier write, kind of the later write
 
 const c08NFiles = 32 // 2^4 data-file subsets x root theme present/absent
@@ -236,6 +236,8 @@ func c08GenMatrix(i int) c08Case {
 	switch typ {
 	case "i":
 		vals = []string{"101", "202", "303", "404", "505"}
+	case "n":
+		vals[0] = "~"
 	case "b":
 		flip := (pattern*7 + int(kinds[1])) % 2
 		for k := range vals {
@@ -513,6 +515,9 @@ func c08Go(k c08Key, tag string, inStruct bool) any {
 }
 
 func c08Yaml(k c08Key, tag string) string {
+	if tag == "~" {
+		return "~"
+	}
 	switch k.T {
 	case "l":
 		return "[" + tag + ", z]"
@@ -591,6 +596,7 @@ func c08GetDecode(k c08Key, raw string, cands []string) string {
 
 var c08FieldTypes = map[string]reflect.Type{
 	"s": reflect.TypeOf(""),
+	"n": reflect.TypeOf(""),
 	"i": reflect.TypeOf(0),
 	"b": reflect.TypeOf(false),
 	"l": reflect.TypeOf([]string(nil)),
@@ -837,6 +843,10 @@ func (x *c08Run) config(key string) (val c08V, nsrc int) {
 func (x *c08Run) allowed(m *c08Model, key string, fileRender, useConfig bool) (set []c08V, nsrc int) {
 	rank := map[string]int{"fm": 5, "assign": 4, "fill-map": 4, "fill-struct": 4, "inherited-fm": 3, "data": 2, "theme": 1}
 	add := func(v c08V) {
+		if v.tag == "~" {
+			// the key is present with a null value: it reads as empty, and it still hides every lower source
+			v.tag = ""
+		}
 		for j, s := range set {
 			if s.tag == v.tag {
 				// the same value from two sources (booleans): label it by the higher-ranked one
@@ -1048,6 +1058,10 @@ func (x *c08Run) judgeRender(where, entry string, m *c08Model, fileRender, useCo
 		}
 		if us := doc.ByAttr("data-m", fmt.Sprintf("k%d-t", j)); len(us) == 1 {
 			obs["v-text"] = us[0].InnerText()
+			if obs["v-text"] == "<nil>" {
+				// v-text prints a nil value as fmt does; which text a nil has is not this property's subject
+				obs["v-text"] = ""
+			}
 		} else {
 			obs["v-text"] = "other:element-lost"
 		}
